@@ -2585,7 +2585,13 @@ def r104(ctx: Ctx) -> RuleReport:
                         continue
                     # is there a path head -> use that passes no definition of v (this iteration leaves it alone)?
                     starts = [(head, 'T')] if isinstance(loop, ast.For) else [(head, None)]
-                    stale = cfg.path_avoiding(starts, {un}, lambda nd: nd.id in dn or nd.id == head)
+                    # a `for ... in count()` is only left by break: its exhaustion edge does not exist, so its body (which binds v) cannot be skipped
+                    endless_bodies = set()
+                    for lp2 in ast.walk(loop):
+                        if isinstance(lp2, ast.For) and lp2 is not loop and any(isinstance(x, ast.Call) and norm(x.func) in ('count', 'itertools.count', 'cycle', 'itertools.cycle') for x in ast.walk(lp2.iter)) \
+                                and any(isinstance(d2, ast.Assign) and any(isinstance(x, ast.Name) and x.id == v for x in ast.walk(d2.targets[0])) for d2 in lp2.body if isinstance(d2, ast.Assign)):
+                            endless_bodies.add(cfg.node_of(lp2))
+                    stale = cfg.path_avoiding(starts, {un}, lambda nd: nd.id in dn or nd.id == head or nd.id in endless_bodies)
                     if stale is not None:
                         found = (v, u, data_defs[0])
                         break
